@@ -4,8 +4,12 @@ from . import c13
 EXPLANATION = ("C14: on every successful to_chars path the written characters are parsed back symbolically (Horner "
                "evaluation over the bytes of the output buffer): optional '-', digits of the base, no leading zero, "
                "value equal to the magnitude -- the canonical numeral of exactly that value; to_chars_static prints "
-               "the same numeral.")
-BOUNDS = c13.BOUNDS
+               "the same numeral.  scaled_integer: the text is parsed as fixed or scientific decimal and compared with the "
+               "exact value v*2^E (same sign, never above the true magnitude, less than one unit of the last printed digit "
+               "below it).  Unit level: to_chars_positive prints a truncation floor(D/10^j)*10^(e+j) of the digit string D; "
+               "descale never exceeds the true magnitude.")
+BOUNDS = {"quick": "integers i8,u8,i16,u16 (base 10; bases 2,8,16,36; symbolic base for 8-bit) and to_chars_static; scaled_integer<i8,power<-3>>, <u8,power<1>> with every value and buffer length 0..12; scaled_integer<u64,power<0>> for the 256 values from 2^63 with an adequate buffer (well-formedness and sign); unit kernel to_chars_positive: digit strings of length 1..6, decimal exponent in [-99,99], buffer 0..12 (INT encoding); descale<int16_t,10> for (i8,2^12), (u8,2^9), (i8,2^-12)",
+          "thorough": "adds i32..u64 integers, scaled exponents -8..8, 16-bit reps, 64-bit slices with the magnitude claims, to_chars_positive with 19 digits / buffer 26, more descale instantiations; per-kernel budget 900 s (kernels that exceed it are listed as not analysed).  Outside: 128-bit and wide reps, to_string / operator<< (heap, iostream), values of 32/64-bit scaled reps outside the sampled slices"}
 OPTS = c13.OPTS
 
 
